@@ -31,6 +31,11 @@ import (
 var errInjW = errors.New("injected writer failure")
 var errInjR = errors.New("injected reader failure")
 
+// flavours of the injected reader failure: the plain error; one that wraps io.EOF ("connection closed by peer: EOF") and one
+// that wraps io.ErrUnexpectedEOF — only the identical value io.EOF means a clean end of input (io.Reader contract)
+var errInjRFlavours = []error{errInjR, errors.Join(errInjR, io.EOF), errors.Join(errInjR, io.ErrUnexpectedEOF)}
+var errInjRNames = []string{"plain", "wraps-io.EOF", "wraps-io.ErrUnexpectedEOF"}
+
 // stickyW fails from its k-th Write call on (k = 0: never) and keeps failing.
 type stickyW struct {
 	k, calls int
@@ -59,11 +64,19 @@ type failR struct {
 	chunk int
 	short bool
 	pos   int
+	err   error // nil: errInjR
+}
+
+func (r *failR) fail() error {
+	if r.err != nil {
+		return r.err
+	}
+	return errInjR
 }
 
 func (r *failR) Read(p []byte) (int, error) {
 	if r.pos >= r.k {
-		return 0, errInjR
+		return 0, r.fail()
 	}
 	n := len(p)
 	if n > r.chunk {
@@ -75,7 +88,7 @@ func (r *failR) Read(p []byte) (int, error) {
 	copy(p, r.data[r.pos:r.pos+n])
 	r.pos += n
 	if r.short && r.pos == r.k {
-		return n, errInjR
+		return n, r.fail()
 	}
 	return n, nil
 }
@@ -138,6 +151,17 @@ func c14Sweep(m *minify.M, in ioInput, rng *h.RNG, maxK int, maxOff int) *c14Res
 		res.tags["input=valid"]++
 	} else {
 		res.tags["input=syntax-error"]++
+	}
+	if n == 0 {
+		// no Write call at all, not even the zero-length probe: a writer that is already broken can never be noticed
+		sw := &stickyW{k: 1}
+		var err error
+		if crash := h.Safely(c14Timeout, func() { err = m.Minify(in.mt, sw, bytes.NewReader(in.data)) }); crash != "" {
+			res.add("crash", "m.Minify with failing writer: "+crash, "sticky writer k=1 of n=0 calls", "")
+		} else if err == nil && valid {
+			res.evals++
+			res.add("fail", "Minify never calls Write (no probe): a writer that fails from its first call is reported as success", "sticky writer k=1 of n=0 calls", "err=nil, 0 write calls")
+		}
 	}
 	// ---- writer sweep ----
 	ks := make([]int, 0, n+1)
@@ -244,11 +268,13 @@ func c14Sweep(m *minify.M, in ioInput, rng *h.RNG, maxK int, maxOff int) *c14Res
 	for _, k := range offs {
 		for _, short := range []bool{false, true} {
 			chunk := []int{1, 3, 64, 512, 1 << 20}[rng.Intn(5)]
-			cfg := fmt.Sprintf("reader fails after %d of %d bytes short=%v readsize<=%d", k, len(in.data), short, chunk)
+			fl := rng.Intn(len(errInjRFlavours))
+			rerrv := errInjRFlavours[fl]
+			cfg := fmt.Sprintf("reader fails after %d of %d bytes short=%v readsize<=%d error=%s", k, len(in.data), short, chunk, errInjRNames[fl])
 			var err error
 			sw := &stickyW{}
 			if crash := h.Safely(c14Timeout, func() {
-				err = m.Minify(in.mt, sw, &failR{data: in.data, k: k, chunk: chunk, short: short})
+				err = m.Minify(in.mt, sw, &failR{data: in.data, k: k, chunk: chunk, short: short, err: rerrv})
 			}); crash != "" {
 				res.add("crash", "m.Minify with failing reader: "+crash, cfg, "")
 				continue
@@ -270,7 +296,7 @@ func c14Sweep(m *minify.M, in ioInput, rng *h.RNG, maxK int, maxOff int) *c14Res
 			// through m.Reader: the consumer gets the error
 			var rerr error
 			if crash := h.Safely(c14Timeout, func() {
-				rd := m.Reader(in.mt, &failR{data: in.data, k: k, chunk: chunk, short: short})
+				rd := m.Reader(in.mt, &failR{data: in.data, k: k, chunk: chunk, short: short, err: rerrv})
 				_, rerr = io.ReadAll(rd)
 			}); crash != "" {
 				res.add("crash", "m.Reader with failing reader: "+crash, cfg, "")
@@ -365,6 +391,7 @@ func init() {
 			}
 		}
 		inputs = append(inputs, ioInvalid...)
+		inputs = append(inputs, ioTruncated(c.Rng.Fork(), c.N(12, 60))...)
 		if c.Replay != "" {
 			if in, ok := ioReplayInput(c.Replay); ok {
 				inputs = append([]ioInput{in}, inputs...)
